@@ -174,6 +174,13 @@ def gen_script(rng, solvers=L.SOLVERS, nops=(3, 9), p_mid=0.5, allow_modes=False
                 ops.append(dict(op="SetEvalMonitor", new=rng.random() < 0.3))
             elif m == "obj":
                 ops.append(dict(op="SetObjective", cost=gen_cost(rng, ndim) if not vector else dict(kind="vector", a=[grid(rng, -2, 2) for _ in range(ndim)])))
-    # make sure any Solve has a generation bound somewhere before it (keeps runs short)
+    # DE settings given as sticky keywords of the first Step/Solve instead of attributes (boundary values 0 and 1 included)
+    if kind in ("DE", "DE2") and rng.random() < 0.3:
+        for o in ops:
+            if o["op"] in ("Step", "Solve"):
+                o["kw"] = dict(strategy=case["strategy"], CrossProbability=rng.choice([0, 0.0, 1.0, 0.5, 0.9]),
+                               ScalingFactor=rng.choice([0, 0.0, 1.0, 0.5, 0.8]))
+                case["de_kw"] = True
+                break
     case["ops"] = ops
     return case
